@@ -44,7 +44,8 @@ fn actions() -> Vec<Action> {
     let mut v = vec![];
     for (entity, seeds) in [("a.org", [0usize, 1]), ("b.org", [1, 2]), ("é", [2, 3])] {
         for seed in seeds {
-            for version in ["1", "k_2"] {
+            // (a version may contain a colon: the algorithm is what precedes the FIRST one)
+            for version in ["1", "k_2", "2024:01"] {
                 v.push(Action { entity, seed, version });
             }
         }
@@ -95,10 +96,13 @@ fn bases(tier: Tier) -> Vec<(&'static str, Map<String, Value>, KeyAssign)> {
         ),
         ("empty-signatures-object", obj(json!({"signatures": {}, "unsigned": {}, "v": 0})), none()),
     ];
+    // JSON signing has no size limit (only event hashing has): an object of 70 000 canonical bytes
+    let mut all = all;
+    all.insert(2, ("large-object", obj(json!({"blob": "a".repeat(70_000), "unsigned": {"age": 1}})), none()));
     if tier.is_thorough() {
         all
     } else {
-        all.into_iter().take(6).collect()
+        all.into_iter().take(7).collect()
     }
 }
 
@@ -127,7 +131,7 @@ fn model_sign_error(obj: &Map<String, Value>, entity: &str) -> Option<&'static s
 
 fn is_ed25519_key_id(kid: &str) -> bool {
     match kid.split_once(':') {
-        Some(("ed25519", name)) => !name.is_empty() && name.chars().all(|c| c.is_ascii_alphanumeric() || c == '_'),
+        Some(("ed25519", name)) => !name.is_empty() && name.chars().all(|c| c.is_ascii_alphanumeric() || c == '_' || c == ':'),
         _ => false,
     }
 }
